@@ -105,7 +105,7 @@ func oracleBatch(st *step, maxMsg int) *verdict {
 			}
 		}
 		if total > int64(maxMsg) {
-			return &verdict{whatBatchRead, fmt.Sprintf("%d bytes requested with a limit of %d, call succeeded", total, maxMsg)}
+			return &verdict{whatBatchLimit, fmt.Sprintf("%d bytes requested with a limit of %d, call succeeded", total, maxMsg)}
 		}
 	case "fmb":
 		if len(changed) != 0 {
